@@ -10,7 +10,7 @@ m = {
  "setup_cmd": "cd /verif/sim && GOFLAGS=-mod=mod GOPROXY=off GOSUMDB=off GOTOOLCHAIN=local go1.26.8 vet -tags verif . && mkdir -p /verif/bin /verif/evidence /verif/replays",
  "hooks": {
   "guard": "verif (Go build tag)",
-  "enable": "go1.26.8 test -c -tags verif (module /verif/sim with 'replace github.com/mithrandie/csvq => /repo'; plus -overlay with copies of lib/file/*.go, lib/query/*.go and lib/value/*.go into which tools/autoyield inserted further vhook.Yield calls (in front of file-system calls, at the top of goroutine literals and in front of every context poll of the statement-level code) and in which every sync.Pool became a vhook.SPool (that type is added to package vhook through the same overlay), /repo itself untouched); real-process tier: CGO_ENABLED=0 go build -tags verif /repo",
+  "enable": "go1.26.8 test -c -tags verif (module /verif/sim with 'replace github.com/mithrandie/csvq => /repo'; plus -overlay with copies of lib/file/*.go, lib/query/*.go and lib/value/*.go into which tools/autoyield inserted further vhook.Yield calls (in front of file-system calls, at the top of goroutine literals and in front of every context poll of the statement-level code) and in which every sync.Pool became a vhook.SPool (that type is added to package vhook through the same overlay), /repo itself untouched); real-process tier: CGO_ENABLED=0 go build -tags verif /repo. The repairs 38c55e8 and 1273d6d (fix: commits) take Transaction.operationMutex in a new helper and carry the one vhook.AwaitMutex line that every Lock of that mutex has (a no-op without the tag)",
   "baseline_off_cmd": "cd /repo && GOFLAGS=-mod=mod GOPROXY=off GOSUMDB=off go test -vet=off -count=1 -json ./...",
   "source_commits": hook_commits,
   "add_only": False
